@@ -304,6 +304,10 @@ fn open_fds(spec: &Spec, m: &mut Manifest) {
                 FdSpec::File { path } | FdSpec::DeletedFile { path } => {
                     let c = CString::new(path.as_bytes()).unwrap();
                     let fd = libc::open(c.as_ptr(), libc::O_RDWR | libc::O_CREAT, 0o640);
+                    // every descriptor's file gets its own permission bits (two descriptors may well
+                    // share a link text, e.g. `<path> (deleted)` twice, and still be different files)
+                    let modes = [0o640u32, 0o600, 0o644, 0o660, 0o604, 0o666, 0o200, 0o444];
+                    libc::fchmod(fd, modes[m.fds.len() % modes.len()] as libc::mode_t);
                     m.fds.push(fd);
                     if matches!(f, FdSpec::DeletedFile { .. }) {
                         libc::unlink(c.as_ptr());
